@@ -83,8 +83,10 @@ OStopCall == /\ Ev("stopcall") /\ stopCalled' = stopCalled \cup {T.t}
              /\ UNCHANGED <<cfg, created, closes, runCalled, runRet, began, stopRet, ending, closeErr,
                             blocked, beginsAfter, bound, lateCommit, closedOK, outcomeOK, endOK>>
 OStopRet == /\ Ev("stopret") /\ stopRet' = stopRet \cup {T.t}
+            /\ blocked' = (blocked /\ stopCalled # stopRet')      \* nobody is waiting any more
+            /\ beginsAfter' = IF blocked' THEN beginsAfter ELSE 0
             /\ UNCHANGED <<cfg, created, closes, runCalled, runRet, began, stopCalled, ending, closeErr,
-                           blocked, beginsAfter, bound, lateCommit, closedOK, outcomeOK, endOK>>
+                           bound, lateCommit, closedOK, outcomeOK, endOK>>
 OStopBlocked == /\ Ev("stopblocked")
                 /\ blocked' = (blocked \/ (T.t \notin stopRet /\ runCalled # runRet))
                 /\ UNCHANGED <<cfg, created, closes, runCalled, runRet, began, stopCalled, stopRet, ending,
